@@ -146,18 +146,23 @@ def nextCur (s : Stride) : Option Nat :=
   | some a, some b => some (a * b)
   | _, _ => none
 
-/-- the `while True` loop; returns the members in the order they were found (innermost first). -/
-def lcbLoop : Nat → List Entry → Option Nat → List Entry → Except Err (List Entry)
+/-- the `while True` loop; returns the members in the order they were found (innermost first) and the strides
+that were not taken (`self_strides` at exit), in their original order. -/
+def lcbLoop : Nat → List Entry → Option Nat → List Entry → Except Err (List Entry × List Entry)
   | 0, _, _, _ => .error .fuel
   | fuel + 1, l, cur, acc =>
     match findStep cur l with
-    | none => .ok acc
+    | none => .ok (acc, l)
     | some e =>
       if e.ss = e.ds then lcbLoop fuel (l.erase e) (nextCur e.ss) (acc ++ [e])
-      else .ok acc
+      else .ok (acc, l)
+
+/-- `largest_common_contiguous_block_keys` (fix F21): the members by position, and the other positions. -/
+def lcbSplit (flat : List Entry) : Except Err (List Entry × List Entry) :=
+  lcbLoop (flat.length + 1) flat (some 1) []
 
 def lcbMembers (flat : List Entry) : Except Err (List Entry) :=
-  lcbLoop (flat.length + 1) flat (some 1) []
+  (lcbSplit flat).map (·.1)
 
 def defaultLcb : List Stride := [⟨some 1, some 1⟩]
 
@@ -305,14 +310,22 @@ def sortDesc (l : List Entry) : List Entry := l.foldr insDesc []
 
 def Entry.triple (e : Entry) : Nat × Nat × Nat := (e.bound, e.sstep, e.dstep)
 
-/-- `stride not in lcb` (by value, `Stride.__eq__`) -/
+/-- BEFORE fix F21 (finding D41): `stride not in lcb` (by value, `Stride.__eq__`) -/
 def remaining (lcb : List Stride) (flat : List Entry) : List Entry :=
   flat.filter fun e => !lcb.contains e.ss
 
-/-- steps 4–6 given the flat entries (dims ascending, depths ascending), the LCB, the pointers after
+/-- `stride in lcb and stride.bound == 1` -/
+def unitCovered (lcb : List Stride) (e : Entry) : Bool := lcb.contains e.ss && e.ss.bound == some 1
+
+/-- WITH fix F21: `key not in lcb_keys and not (stride in lcb and stride.bound == 1)`; `rest` = the positions
+that are not members, in order. -/
+def remainingByKey (lcb : List Stride) (rest : List Entry) : List Entry :=
+  rest.filter fun e => !unitCovered lcb e
+
+/-- steps 4–6 given the remaining strides (dims ascending, depths ascending), the LCB, the pointers after
 offset application and the total size in bytes. -/
-def build (el sbase dbase total : Nat) (lcb : List Stride) (flat : List Entry) : Except Err DmaProg :=
-  match sortDesc (remaining lcb flat) with
+def build (el sbase dbase total : Nat) (lcb : List Stride) (rem : List Entry) : Except Err DmaProg :=
+  match sortDesc rem with
   | [] => .ok ⟨sbase, dbase, [], .oneD total⟩
   | h :: rest =>
     match lcb.getLast? with
@@ -359,18 +372,20 @@ structure Lowered where
   prog : DmaProg
 deriving DecidableEq, Repr
 
-/-- steps 2–6 on the resolved entries: LCB, remaining strides, program. -/
-def lowerResolved (el sb db : Nat) (shape : List Nat) (nested : List (List Entry)) :
+/-- steps 2–6 on the resolved entries: LCB, remaining strides, program. `byValue = true` is the code before fix
+F21 (membership in the LCB decided by Stride value), `false` the code with F21 (by position). -/
+def lowerResolved (byValue : Bool) (el sb db : Nat) (shape : List Nat) (nested : List (List Entry)) :
     Except Err (List Stride × DmaProg) :=
-  match lcbMembers nested.flatten with
+  match lcbSplit nested.flatten with
   | .error e => .error e
-  | .ok mem =>
-    match build el sb db (totalBytes shape el) (lcbOfMembers mem) nested.flatten with
+  | .ok mr =>
+    match build el sb db (totalBytes shape el) (lcbOfMembers mr.1)
+        (if byValue then remaining (lcbOfMembers mr.1) nested.flatten else remainingByKey (lcbOfMembers mr.1) mr.2) with
     | .error e => .error e
-    | .ok p => .ok (lcbOfMembers mem, p)
+    | .ok p => .ok (lcbOfMembers mr.1, p)
 
 /-- `TransformDMA.match_and_rewrite` evaluated on descriptors `rs`, `rd`. -/
-def transformDma (src dst : MemTy) (rs rd : Rt) : Except Err Lowered :=
+def transformDma (byValue : Bool) (src dst : MemTy) (rs rd : Rt) : Except Err Lowered :=
   if src.shape != dst.shape || src.el != dst.el || src.isInt != dst.isInt || !src.isInt then .error .noMatch else
   match tslOf src dst src.shape with
   | .error e => .error e
@@ -381,7 +396,7 @@ def transformDma (src dst : MemTy) (rs rd : Rt) : Except Err Lowered :=
       match resolve src dst tS tD rs rd with
       | .error e => .error e
       | .ok nested =>
-        match lowerResolved src.el (applyOffset rs.base src.el tS.offset rs.offset)
+        match lowerResolved byValue src.el (applyOffset rs.base src.el tS.offset rs.offset)
             (applyOffset rd.base dst.el tD.offset rd.offset) rs.shape nested with
         | .error e => .error e
         | .ok r => .ok ⟨tS, tD, nested, r.1, r.2⟩
@@ -395,10 +410,10 @@ def simpleCopy (src dst : MemTy) (rs rd : Rt) : Except Err DmaProg :=
   | _, _ => .error .noMatch
 
 /-- the whole pass on one `memref.copy`. -/
-def lowerCopy (src dst : MemTy) (rs rd : Rt) : Except Err DmaProg :=
+def lowerCopy (byValue : Bool) (src dst : MemTy) (rs rd : Rt) : Except Err DmaProg :=
   match simpleCopy src dst rs rd with
   | .ok p => .ok p
-  | .error .noMatch => (transformDma src dst rs rd).map (·.prog)
+  | .error .noMatch => (transformDma byValue src dst rs rd).map (·.prog)
   | .error e => .error e
 
 /-! ### the layout-defined address (specification side) -/
